@@ -186,7 +186,9 @@ def envOf (j : Json) : Env :=
   let elemT := (jarr j "elem").map (fun p => match asArr p with
     | [f, x, y] => ((asStr f, ratOf x), ratOf y)
     | _ => (("", 0), 0))
-  let semT := (jarr j "factors").map (fun f => (jstr f "expr", semOf (jval f "sem")))
+  -- `contr.poly` (orthonormal polynomial coding: irrational entries) has no semantics here: outside the model
+  let semT := ((jarr j "factors").filter (fun f => jstr (jval (jval f "sem") "contrast") "c" != "poly")).map
+    (fun f => (jstr f "expr", semOf (jval f "sem")))
   let norm : String → String := fun t => match normT.lookup t with | some n => n | none => t
   let callT := ((jarr j "factors").flatMap (fun f =>
       if jstr (jval f "sem") "k" == "num" then callsOf roots (jval (jval f "sem") "e") else [])).map
@@ -319,6 +321,50 @@ def handleSparse (j : Json) : Json :=
         resJ (callSparse t st (cols.map (Replay.select ((asArr fu).map asNat)))))))]
   | _ => jerr "not-modelled:sparse"
 
+/-- `op = "parts"`: a STRUCTURED formula (`lhs ~ a | b`): the parts are fitted jointly on the training rows
+(`materializeParts`), then the attached specs are replayed on follow-up rows — jointly, or one part's spec alone,
+also after `getstate`/`restore`.
+`{columns, pool, declared, factors, norm, elem, roots, parts: [[term…]…], efr, output, cluster, train,
+  followups: [{rows, part: i | null, pickle}]}` -/
+def handleParts (j : Json) : Json :=
+  let cols := strs j "columns"
+  let pool := (jarr j "pool").map (rowOf cols)
+  let declared := (jarr j "declared").map (fun p => match asArr p with
+    | [k, ls] => (asStr k, (asArr ls).filterMap labelOf)
+    | _ => ("", []))
+  let frame (is : List Nat) : Frame := { columns := cols, declared := declared, rows := Replay.select is pool }
+  let env := envOf j
+  let output : Option String := match jval j "output" with | .str o => some o | _ => none
+  let specs0 := (jarr j "parts").map (fun pj =>
+    Spec.fresh ((asArr pj).map (fun t => (asArr t).map asStr)) (jbool j "efr") output
+      (if jbool j "cluster" then "numerical_factors" else "none"))
+  let outJ (r : Spec × List Entry) : Json := Json.mkObj [("columns", matrixJ r.2), ("spec", specJ r.1)]
+  match envBindError j with
+  | some e => Json.mkObj [("fit", jerr e)]
+  | none =>
+  match materializeParts env specs0 (frame ((jarr j "train").map asNat)) with
+  | .error e => Json.mkObj [("fit", jerr (rErrName e))]
+  | .ok rs =>
+    let specs := rs.map (·.1)
+    let viaPickle (s : Spec) : Option Spec := Spec.ofDict (restore (getstate (s.toDict ++ [("column_names", .derived s.columnNames)])))
+    let one (fu : Json) : Json :=
+      let ss : List Spec := if jbool fu "pickle" then specs.filterMap viaPickle else specs
+      let fr := frame ((jarr fu "rows").map asNat)
+      match jval fu "part" with
+      | .null =>
+        match materializeParts env ss fr with
+        | .error e => jerr (rErrName e)
+        | .ok rs' => Json.mkObj [("parts", jlist (rs'.map outJ))]
+      | pj =>
+        match ss[asNat pj]? with
+        | none => jerr "MODEL-NO-SUCH-PART"
+        | some s =>
+          match materialize env s fr with
+          | .error e => jerr (rErrName e)
+          | .ok r => Json.mkObj [("parts", jlist [outJ r])]
+    Json.mkObj [("fit", Json.mkObj [("parts", jlist (rs.map outJ))]),
+      ("replays", jlist ((jarr j "followups").map one))]
+
 /-- `op = "session"`: two (or more) specs fitted on their own training rows, then a HISTORY of
 `get_model_matrix(spec_i)` calls on ONE materializer object built for the rows `rows`
 (`Mat.run`: the object's cache is threaded through the calls, failing calls included).
@@ -361,6 +407,7 @@ def handle (j : Json) : Json :=
   if jstr j "op" == "dict" then handleDict j else
   if jstr j "op" == "session" then handleSession j else
   if jstr j "op" == "sparse" then handleSparse j else
+  if jstr j "op" == "parts" then handleParts j else
   let cols := strs j "columns"
   let pool := (jarr j "pool").map (rowOf cols)
   let declared := (jarr j "declared").map (fun p => match asArr p with
